@@ -719,4 +719,6 @@ func run(c *vf.Ctx) {
 	if n := c.Counter("reload_failed"); n > 0 {
 		c.Logf("reload failed %d times", n)
 	}
+	syscallCrashes(c)
+	c.Assume("syscall-level phase: the signer runs in a child process under strace -f; the k-th rename/unlink/fsync-family call (counted per thread by strace) kills the process on entry or fails with EIO; k runs until the undisturbed sequence completes")
 }
